@@ -803,3 +803,107 @@ func TestVerifC16SlowReader(t *testing.T) {
 	}
 	out.emit(res)
 }
+
+// TestVerifC15Idle: a direction that stays silent for longer than any plausible I/O timeout while the other
+// direction has just been written to.  Nothing was closed, so the bytes sent after the gap must arrive.
+func TestVerifC15Idle(t *testing.T) {
+	out := verifOpenOut(t)
+	defer out.close()
+	gap := 12 * time.Second
+	b := startVerifBridge(t, func(sc *verifSrvConn) {
+		defer sc.c.Close()
+		buf := make([]byte, 64)
+		n, err := sc.c.Read(buf)
+		if err != nil {
+			return
+		}
+		switch string(buf[:n]) {
+		case "request-then-slow-reply":
+			time.Sleep(gap)
+			sc.c.Write([]byte("late reply"))
+		case "server-push-pause-push":
+			sc.c.Write([]byte("first;"))
+			time.Sleep(gap)
+			sc.c.Write([]byte("second"))
+		}
+		// wait for the client to finish
+		sc.c.SetReadDeadline(time.Now().Add(20 * time.Second))
+		sc.c.Read(buf)
+	})
+	defer b.stop()
+	var wg sync.WaitGroup
+	for _, sc := range []struct{ name, want string }{{"request-then-slow-reply", "late reply"}, {"server-push-pause-push", "first;second"}} {
+		wg.Add(1)
+		go func(name, want string) {
+			defer wg.Done()
+			res := map[string]interface{}{"kind": "idle", "scenario": name, "gap_ms": gap.Milliseconds(), "expected": want}
+			defer func() { out.emit(res) }()
+			c, err := net.Dial("tcp", b.frontAddr)
+			if err != nil {
+				res["err"] = err.Error()
+				return
+			}
+			defer c.Close()
+			start := time.Now()
+			c.Write([]byte(name))
+			var got []byte
+			buf := make([]byte, 64)
+			c.SetReadDeadline(time.Now().Add(gap + 8*time.Second))
+			for len(got) < len(want) {
+				n, err := c.Read(buf)
+				got = append(got, buf[:n]...)
+				if err != nil {
+					res["client_err"] = err.Error()
+					res["client_err_after_ms"] = time.Since(start).Milliseconds()
+					break
+				}
+			}
+			res["received"] = string(got)
+		}(sc.name, sc.want)
+	}
+	wg.Wait()
+}
+
+// TestVerifC16Down: the TCP server behind the bridge is gone (listener closed).  A client that connects through
+// the bridge must see its connection end; connections made after the server is back work as before.
+func TestVerifC16Down(t *testing.T) {
+	out := verifOpenOut(t)
+	defer out.close()
+	b := startVerifBridge(t, func(sc *verifSrvConn) {
+		defer sc.c.Close()
+		io.Copy(sc.c, sc.c)
+	})
+	defer b.stop()
+	// sanity: the bridge works while the server is up
+	try := func(phase string) {
+		res := map[string]interface{}{"kind": "server-down", "phase": phase}
+		defer func() { out.emit(res) }()
+		c, err := net.Dial("tcp", b.frontAddr)
+		if err != nil {
+			res["err"] = err.Error()
+			return
+		}
+		defer c.Close()
+		start := time.Now()
+		c.Write([]byte("hello"))
+		buf := make([]byte, 16)
+		c.SetReadDeadline(time.Now().Add(5 * time.Second))
+		n, err := c.Read(buf)
+		res["received"] = string(buf[:n])
+		res["delay_ms"] = time.Since(start).Milliseconds()
+		if err != nil {
+			res["read_err"] = err.Error()
+			if ne, ok := err.(net.Error); ok && ne.Timeout() {
+				res["timed_out"] = true
+			} else {
+				res["ended"] = true
+			}
+		}
+	}
+	try("up")
+	b.srvLn.Close()
+	time.Sleep(100 * time.Millisecond)
+	for i := 0; i < 3; i++ {
+		try("down")
+	}
+}
